@@ -3,6 +3,7 @@
 -/
 import Proofs.FileWrite
 import Proofs.StreamFault
+import Proofs.ArmorCompose
 namespace AgeModel
 namespace Props.C13
 open Format Stream
@@ -25,6 +26,42 @@ theorem no_silent_loss {S : DstSpec} (P : Prims) (C L : Nat) (hC : 0 < C)
   subst hw hk
   have := Props.C12.writer_refines_spec P.aead C L hC (streamKey P fk nonce) d2 segs hall
   exact ⟨fk, stanzas, nonce, by rw [this.1, hacc]; simp [specFile]⟩
+
+/-- **No silent loss (armored files).** `Encrypt` into an armor writer over ANY
+    destination (failing at any call or offset, accepting any prefix), the armor
+    writer's output split into destination writes in any way (`segF`), any tape,
+    recipients, header split and write segmentation: if Encrypt, every Write, the
+    payload writer's Close AND the armor writer's Close all report success, then
+    the destination holds exactly what it held before followed by the complete
+    armor of the complete file for the concatenated plaintext. -/
+theorem no_silent_loss_armored {S' : DstSpec} (segF : Armor.AWriter S' → Bytes → List Nat)
+    (P : Prims) (C L : Nat) (hC : 0 < C)
+    (tape : Bytes) (rs : List Recipient) (hdrSegs : List Nat) (d' : Dst S') (segs : List Bytes)
+    (d2 : Dst (armorDst S' segF)) (w : Stream.Writer (armorDst S' segF)) (k t' : Bytes)
+    (hinit : encryptInit P tape rs hdrSegs (armorDst.fresh (segF := segF) d') = (.ok (w, k, t'), d2))
+    (hall : ∀ r ∈ (w.run P.aead C L k (Props.C12.opsOf segs)).2, r.2 = none)
+    (a' : Armor.AWriter S')
+    (hclose : (w.run P.aead C L k (Props.C12.opsOf segs)).1.dst.st.close = (a', none)) :
+    ∃ fk stanzas nonce, a'.dst.acc = d'.acc ++ Armor.armor (specFile P C fk stanzas nonce segs.flatten) := by
+  obtain ⟨fk, stanzas, nonce, hacc⟩ := no_silent_loss P C L hC tape rs hdrSegs _ d2 segs w k t' hinit hall
+  have hw : w = Stream.Writer.new d2 := by
+    obtain ⟨_, _, _, _, _, _, _, _, hw⟩ := encryptInit_ok P tape rs hdrSegs _ d2 w k t' hinit
+    exact hw
+  have hr1 := encryptInit_reach P tape rs hdrSegs _ d2 w k t' hinit
+  have hr2 := run_reach P.aead C L k (Props.C12.opsOf segs) w hall
+  have hwd : w.dst = d2 := by rw [hw]; rfl
+  rw [hwd] at hr2
+  have hI := Reach.transfer (I := ArmorDstInv d'.acc)
+    (fun d b d1 h1 h2 => armorDstInv_write d'.acc d d1 b h1 h2) (hr1.trans hr2) (armorDstInv_fresh d')
+  unfold ArmorDstInv at hI
+  rw [hacc] at hI
+  have := Armor.aclose_ok d'.acc _ a' _ hI hclose
+  exact ⟨fk, stanzas, nonce, by rw [this]; simp [armorDst.fresh]⟩
+
+/-- non-vacuity: an armor writer over a perfect destination accepts a write as a
+    destination, and over a destination that fails at offset 10 it reports the failure -/
+example : ((armorDst.fresh (S' := DstSpec.perfect) (segF := fun _ _ => []) { acc := [], st := () }).write [1, 2, 3]).2 = true := by decide
+example : ((armorDst.fresh (S' := DstSpec.atOffset 10 true false) (segF := fun _ _ => []) { acc := [], st := false }).write [1, 2, 3]).2 = false := by decide
 
 /-- a failed Encrypt returns no writer: the caller cannot go on writing -/
 theorem encrypt_failure_no_writer {S : DstSpec} (P : Prims) (tape : Bytes) (rs : List Recipient) (segs : List Nat) (d : Dst S) :
